@@ -296,6 +296,49 @@ fn compaction_visible() {
     report("compaction-visible", bad, detail.join("; "));
 }
 
+unsafe extern "C" {
+    fn fdatasync(fd: i32) -> i32;
+}
+
+/// commit-fault <index|nodetable> <k>: with witness/faultshim.c preloaded, the (k+1)-th fdatasync/fsync after arming fails once.
+/// index: two nodes share an indexed value, `SET n1.p = 2` is committed with the log fsync failing: commit must report the error
+/// and the index lookup for the old value must still return both nodes.
+/// nodetable: `CREATE (:A:B {x:1})` with a node-table flush failing after the log is durable: the running process must not see
+/// the node.
+fn commit_fault(kind: &str, k: i32) {
+    let d = tempfile::tempdir().unwrap();
+    let db = Db::open(d.path().join("g")).unwrap();
+    if kind == "index" {
+        db.create_index("L", "p").unwrap();
+        w(&db, "CREATE (:L {p: 1, name: 'n1'})").unwrap();
+        w(&db, "CREATE (:L {p: 1, name: 'n2'})").unwrap();
+        let qy = "MATCH (n:L {p: 1}) RETURN count(n) AS c";
+        let before = q(&db, qy);
+        unsafe { fdatasync(-424242 - k) };
+        let r = w(&db, "MATCH (n:L {name: 'n1'}) SET n.p = 2");
+        let after = q(&db, qy);
+        let scan = q(&db, "MATCH (n:L) WHERE n.p = 1 RETURN count(n) AS c");
+        report(
+            "commit-fault",
+            r.is_err() && before != after,
+            format!("commit => {:?}; `{}` before {:?} after {:?}; same count without the inline seek {:?}", r, qy, before, after, scan),
+        );
+    } else {
+        w(&db, "CREATE (:Z {x: 0})").unwrap();
+        let qy = "MATCH (n) RETURN count(n) AS c";
+        let before = q(&db, qy);
+        unsafe { fdatasync(-424242 - k) };
+        let r = w(&db, "CREATE (:A:B {x: 1})");
+        let after = q(&db, qy);
+        let labelled = q(&db, "MATCH (n:A) RETURN count(n) AS c");
+        report(
+            "commit-fault",
+            r.is_err() && before != after,
+            format!("commit => {:?}; `{}` before {:?} after {:?}; MATCH (n:A) {:?}", r, qy, before, after, labelled),
+        );
+    }
+}
+
 /// query <cypher>: prints rows (used by several E2 replays that only need one read query on an empty db).
 fn query(cy: &str) {
     let d = tempfile::tempdir().unwrap();
@@ -317,6 +360,7 @@ fn main() {
         "multilabel-reopen" => multilabel_reopen(&arg(2)),
         "vacuum-after-compaction" => vacuum_after_compaction(),
         "dangling" => dangling(&arg(2)),
+        "commit-fault" => commit_fault(&arg(2), arg(3).parse().unwrap_or(0)),
         "compaction-visible" => compaction_visible(),
         "query" => query(&arg(2)),
         _ => {
